@@ -714,7 +714,7 @@ CHUNK_CONTRACTS = [
     Contract(M, '_CHTextChunk.clone', prop=PROP, spec_globals=G, level='sup',
              params={'self': CHUNK(), 'new_text': T.str},
              ensures={'same_colour_new_text': "result.c_prefix == self.c_prefix and result.c_suffix == self.c_suffix "
-                                              "and result.text == new_text and result is not self",
+                                              "and result.text == new_text",       # (chunks are immutable: identity is not demanded)
                       'is_chunk': "isinstance(result, Chunk_cls)"},
              raises={}, modifies=[]),
     Contract(M, '_CHTextChunk.has_same_type', prop=PROP, spec_globals=G, level='sup',
@@ -725,7 +725,7 @@ CHUNK_CONTRACTS = [
              params={'self': CHUNK(), 'other': CHUNK()},
              requires=["self.c_prefix == other.c_prefix"],
              ensures={'merged': "result.c_prefix == self.c_prefix and result.c_suffix == self.c_suffix "
-                                "and result.text == self.text + other.text and result is not self and result is not other"},
+                                "and result.text == self.text + other.text"},
              raises={}, modifies=[]),
     Contract(M, '_CHTextChunk.__str__', prop=PROP, spec_globals=G, level='top',
              params={'self': CHUNK()},
@@ -736,7 +736,6 @@ CHUNK_CONTRACTS = [
              params={'self': CHUNK()}, ensures={'visible_chars': "result == len(self.text)"}, raises={}, modifies=[]),
     Contract(M, '_CHTextChunk.__eq__', name='_CHTextChunk.__eq__/str', prop=PROP, spec_globals=G, level='top',
              params={'self': CHUNK(), 'other': T.str},
-             requires=["wfc(self)"],
              ensures={'default_coloured_chunk_equals_str': "result == (self.c_prefix == '' and self.text == other)"},
              raises={}, modifies=[]),
     Contract(M, '_CHTextChunk.__getitem__', name='_CHTextChunk.__getitem__/index', prop=PROP, spec_globals=G, level='top',
@@ -803,6 +802,44 @@ CHUNK_CONTRACTS = [
              symlist_models=FOLD_MODELS, raises={}, modifies=[]),
 ]
 UNBOUNDED_CONTRACTS += CHUNK_CONTRACTS
+
+# ---- the constructor from a chunk list, for a list of ANY length (section 19.3) ---------------------------------
+_MERGE_INV = (
+    "len(chunks_list) >= 2 and 0 <= __i < len(chunks_list) "
+    "and plain(result) + cur_chunk.text == plain_upto(chunks_list, __i + 1) "
+    "and total(result) + len(cur_chunk.text) == offset(chunks_list, __i + 1) "
+    "and cur_chunk.c_prefix == chunks_list[__i].c_prefix "
+    "and all(result[i].c_prefix != result[i + 1].c_prefix for i in range(len(result) - 1)) "
+    "and (len(result) == 0 or result[-1].c_prefix != cur_chunk.c_prefix) "
+    "and (not (0 <= p < offset(chunks_list, __i + 1)) or "
+    "(color_at(result, p) if p < total(result) else cur_chunk.c_prefix) == color_at(chunks_list, p)) "
+    "and (not all(len(c.text) > 0 for c in chunks_list) or "
+    "(all(len(c.text) > 0 for c in result) and len(cur_chunk.text) > 0))")
+UNBOUNDED_CONTRACTS += [
+    Contract(M, 'CHText._merge_chunks', name='CHText._merge_chunks/any_length', prop=PROP, spec_globals=G, level='top',
+             result_spec=ANYCHUNKS(),
+             params={'cls': T.cls('ak.color:CHText'), 'chunks_list': ANYCHUNKS(), 'p': T.int},
+             ensures={
+                 'text': "plain(result) == plain(chunks_list)",
+                 'len': "total(result) == total(chunks_list)",
+                 'colors': "not (0 <= p < total(chunks_list)) or color_at(result, p) == color_at(chunks_list, p)",
+                 'neighbours_differ': "all(result[i].c_prefix != result[i + 1].c_prefix for i in range(len(result) - 1))",
+                 'no_empty_chunk_added': "not all(len(c.text) > 0 for c in chunks_list) or all(len(c.text) > 0 for c in result)",
+             },
+             invariants={0: {'inv': _MERGE_INV, 'havoc': {'result': ANYCHUNKS(), 'cur_chunk': CHUNK()}}},
+             symlist_models=COLOR_MODELS, raises={}, modifies=[]),
+    Contract(M, 'CHText.make', name='CHText.make/any_length', prop=PROP, spec_globals=G, level='top',
+             result_spec=ANYTEXT(),
+             params={'cls': T.cls('ak.color:CHText'), 'chunks_list': ANYCHUNKS(), 'p': T.int},
+             ensures={
+                 'text': "plain(result.chunks) == plain(chunks_list)",
+                 'len': "result.scrlen == total(chunks_list)",
+                 'colors': "not (0 <= p < total(chunks_list)) or color_at(result.chunks, p) == color_at(chunks_list, p)",
+                 'wf': "not all(len(c.text) > 0 for c in chunks_list) or wf_any(result)",
+                 'is_text': "isinstance(result, CHText_cls)",
+             },
+             symlist_models=COLOR_MODELS, raises={}, modifies=[]),
+]
 
 CONTRACTS = UNBOUNDED_CONTRACTS + [
     Contract(M, 'CHText._get_chunk_pos', prop=PROP, spec_globals=G, level='sup',
@@ -1035,6 +1072,7 @@ USES = {'CHText.__getitem__/index/any_length': ['CHText._get_chunk_pos/any_lengt
         '_CHTextChunk.__iadd__': _IADD_ANY + ['CHText.__init__/any_length'],
         '_CHTextChunk.__radd__': _IADD_ANY + ['CHText.__init__/any_length'],
         '_CHTextChunk.fixed_len': _IADD_ANY + ['CHText.__init__/any_length'],
+        'CHText.make/any_length': ['CHText._merge_chunks/any_length'],
         '_CHTextChunk.__format__': _IADD_ANY + ['CHText.__init__/any_length', 'CHText.__init__/one_chunk', 'CHText.__format__/any_length'],
         '_CHTextChunk.join': _IADD_ANY + ['CHText.__init__/any_length', 'CHText.__init__/one_chunk', 'CHText.join/any_length']}
 ASSUMED_LIBRARY = []
@@ -1076,6 +1114,16 @@ for _c in CONTRACTS:
 
 NATIVE_SAMPLING = {'select': ('any_length', '_CHTextChunk.', 'CHText.make', 'CHText._merge_chunks', 'one_chunk'), 'n': 150}
 CANARIES = [
+    {'name': 'anylen_merge_loses_last_run', 'module': M, 'function': 'CHText._merge_chunks', 'verify': 'CHText._merge_chunks/any_length',
+     'old': '        result.append(cur_chunk)\n        return result', 'new': '        return result',
+     'unproved_is_enough': True, 'expect': 'C08.CHText._merge_chunks/any_length.text'},
+    {'name': 'anylen_merge_scan_stops_after_three_chunks', 'module': M, 'function': 'CHText._merge_chunks',
+     'verify': 'CHText._merge_chunks/any_length',
+     'old': 'for c, next_c in zip(chunks_list[:-1], chunks_list[1:]))', 'new': 'for c, next_c in zip(chunks_list[:2], chunks_list[1:3]))',
+     'unproved_is_enough': True, 'expect': 'C08.CHText._merge_chunks/any_length.neighbours_differ'},
+    {'name': 'anylen_make_skips_merge', 'module': M, 'function': 'CHText.make', 'verify': 'CHText.make/any_length',
+     'old': 'chunks_list = cls._merge_chunks(chunks_list)', 'new': 'chunks_list = list(chunks_list)',
+     'unproved_is_enough': True, 'expect': 'C08.CHText.make/any_length.wf'},
     {'name': 'chunk_radd_wrong_order', 'module': M, 'function': '_CHTextChunk.__radd__',
      'old': 'return CHText(other, self)', 'new': 'return CHText(self, other)',
      'expect': 'C08._CHTextChunk.__radd__.text'},
